@@ -10,6 +10,7 @@ use std::collections::vec_deque::VecDeque;
 use std::collections::HashMap;
 use std::convert::{From, TryFrom, TryInto};
 use vstd::std_specs::iter::IteratorSpec;
+use std::io::ErrorKind;
 verus! {
 global size_of usize == 8;
 //@@ include prelude/bytes_specs.rs
